@@ -52,10 +52,11 @@ func init() {
 }
 
 func c05Keys(tier string) []int {
+	// 5 and 6: RSA moduli of 2050 and 2047 bits (length not a multiple of eight)
 	if tier == "thorough" {
-		return []int{1, 3, 4}
+		return []int{1, 3, 4, 5, 6}
 	}
-	return []int{1}
+	return []int{1, 5}
 }
 
 type c05Issuer struct {
@@ -410,6 +411,14 @@ func c05Run(c *hx.Ctx, tier, unit string) {
 					c.Sample(label)
 				}
 				c05Check(c, k, cert, ty, c05Content(n, ty.name == "data"), nil, label)
+			}
+			if ty.name == "data" {
+				for _, tc := range trickyContents() {
+					if !c.Next() {
+						continue
+					}
+					c05Check(c, k, cert, ty, tc.b, nil, fmt.Sprintf("key=k%d issuer=%s serial=%s type=data content=%s", k, iss.name, serial.Text(16), tc.name))
+				}
 			}
 			if ty.name != "data" {
 				for si, shape := range c05Shapes() {
